@@ -111,8 +111,16 @@ func cmdCheck(args []string) int {
 		res := w.verifyFunc(w.fnByKey[k], fc, "contract", nil)
 		results = append(results, res)
 	}
+	if tr := w.tagObligations(*prop); len(tr.Obls) > 0 {
+		results = append(results, tr)
+	}
 	dir, _ := os.MkdirTemp("", "govc-")
 	defer os.RemoveAll(dir)
+	for _, k := range loadKnown(*known) {
+		if k.Property == *prop && k.Status == "known" {
+			noRetry[k.Obligation] = true
+		}
+	}
 	verdicts := dischargeAll(results, dir, timeout, *tier == "thorough", workers())
 	kfs := loadKnown(*known)
 	knownBy := map[string]KnownFinding{}
